@@ -37,7 +37,8 @@ def err_object(kind, variant=0):
     if kind == "callableObject":
         return [functools.partial(ValueError, "p"), _Callable(), len][variant % 3]
     if kind == "otherValue":
-        return [5, "some string", 3.5, ["list"]][variant % 4]
+        # truthy and falsy values that are no exception class / instance / callable
+        return [5, "some string", 0, ""][variant % 4] if variant < 4 else [(), [], False, 0.0, 3.5, ["list"]][variant % 6]
     raise AssertionError(kind)
 
 
